@@ -132,6 +132,51 @@ PROPERTIES = {
     },
 }
 
+PROPERTIES.update({
+    "C08": {
+        "modules": ["utilsc", "interface", "parser", "solver"], "level": "other", "floor": 300,
+        "assumptions": SOLVER_ASSUME, "trusted": [T["Z3"], T["DFT"], T["IVPC"]],
+        "explanation": "PROVED: compute_wind_fields returns -speed*(sin, cos)(dir*pi/180) for scalars and arrays (the stated convention: clockwise from north, direction the wind blows FROM), speed preserved (Pythagoras instance), cardinal directions blow toward S/W/N/E (exact sin/cos values); the interface hands wind=(u,v) in that order, the tower's local (x,y) as measurement point and (xmax,ymax) as domain (pipeline term of run_bldfm_single); tower local coordinates are x east / y north of the reference (parser); the solver's grid has X along the last axis with step dx and Y along the first with dy, u/Kx paired with kx (GEO/SC). NOT decided by contracts: 'the bearing from the tower to the footprint centroid equals the wind direction within a few degrees' is a quantitative statement about the PDE solution on a periodic discrete domain: BOUNDED runs over directions x stabilities x closures x grids (bounded/C08.py).",
+        "level_text": "Convention chain proved function by function; the physical centroid clause is outside contract reach and covered by a bounded stand-in, labelled bounded.",
+        "level_note": "A1-A8; centroid bearing measured only on the bounded family.",
+    },
+    "C09": {
+        "modules": ["most", "interface"], "level": "proof", "floor": 120,
+        "assumptions": COMMON + [A["A2"], A["A8"]], "trusted": [T["Z3"]],
+        "explanation": "vertical_profiles (MOST, MOSTM, CONSTANT; z0 given / u* given; default and explicit stretch/domain height): first node = roughness length, node n = measurement height, wind vector reproduced at node n, direction constant, K = kappa u* z/(phi(z/L) Pr) (MOSTM split sums to K, none along the flow), diabatic log law, z0 <-> u* round trip returns identical grid and profiles; psi is the integral of the flux-gradient function (psi' = (phi_m - 1)/x on both branches by symbolic differentiation of the code's own expression), psi(0) = 0, psi and phi continuous at neutral, agreement with the reference model's _psiM/_phiC/_phiM. Positivity of K, strict monotonicity of the grid, reaching the domain height (inequalities over exp/log) and the OAAHOC closure are covered by the bounded stand-in only.",
+        "level_text": "Equalities of the closure proved in real arithmetic with named exp/log/pow/arctan axiom instances; inequalities and OAAHOC bounded.",
+        "level_note": "A1, A2 (np.arange length), A8 (named axiom instances incl. derivative rules).",
+    },
+    "C17": {
+        "modules": ["geo", "parser"], "level": "other", "floor": 20,
+        "assumptions": COMMON + [A["A8"]], "trusted": [T["Z3"]],
+        "explanation": "PROVED: both round trips (lat/lon -> xy -> lat/lon and xy -> lat/lon -> xy) are identities whenever cos(ref_lat) != 0, the origin maps to (0,0), x strictly increases eastward and y northward (cos(ref_lat) > 0 for |ref_lat| < 90), y independent of longitude, array arguments elementwise, tower coordinates filled from the forward map at configuration time. NOT decided: agreement with great-circle distance/bearing to 0.1 % / 0.1 deg (transcendental inequality over a 4-d box): BOUNDED sample against the haversine formulas (bounded/C17.py).",
+        "level_text": "Inverse pair and orientation proved; great-circle accuracy bounded.",
+        "level_note": "A1, A8 (cos positive at the reference latitude).",
+    },
+    "C18": {
+        "modules": ["ioc"], "level": "other", "floor": 400,
+        "assumptions": COMMON, "trusted": [T["Z3"], "xarray.Dataset(...).to_netcdf(zlib) followed by xr.open_dataset is the identity on float64 variables/coordinates and string coordinates (bounded conformance in bounded/C18.py)"],
+        "explanation": "PROVED up to the xarray.Dataset call, for symbolic numbers of towers, steps and grid sizes, 2-D and 3-D, ustar / z0 / both forcings: footprint/concentration[time, tower] hold that tower's field at that step (loop invariants of the three loops), dims tuple matches the array axes, x/y/z coordinates, time labels, tower labels, tower_lat/lon/z belong to the tower NAMED by the label (precondition from C14: results keyed in configuration order), per-step met values incl. z0 for roughness-length forcings, ustar not invented; load = existence check + open_dataset. TRUSTED with bounded conformance: the NetCDF write/read itself.",
+        "level_text": "Array assembly and labelling proved; file format round trip trusted and exercised by the bounded stand-in.",
+        "level_note": "netCDF4/xarray trusted.",
+    },
+    "C19": {
+        "modules": ["km"], "level": "other", "floor": 30,
+        "assumptions": COMMON + [A["A2"], A["A8"]], "trusted": [T["Z3"]],
+        "explanation": "PROVED: the stability helpers return the published expressions per branch for float AND integer heights (no narrowing store), grid cell centres, downwind cells zero, negative-U path returns an empty footprint only when U < 0, symmetry of the closed form about the wind axis, rotations by multiples of 90 degrees are signed permutations of the grid axes, estimateZ0 without smoothing inverts the diabatic log law. The cell-by-cell closed form (power-product identity over ~10 nested quantities) is attempted by the exact normaliser in the thorough tier and otherwise covered by the bounded stand-in; convergence of the cell sum to the incomplete-gamma mass and median-smoothed estimateZ0 are bounded only.",
+        "level_text": "Helper functions, geometry and inversion proved; the full closed-form product and the limit statements are bounded.",
+        "level_note": "A1, A2, A8.",
+    },
+    "C20": {
+        "modules": ["utilsc", "contour"], "level": "proof", "floor": 60,
+        "assumptions": COMMON + [A["A3"]], "trusted": [T["Z3"], "np.argsort returns a permutation sorting its argument (tie order unspecified); np.cumsum = prefix sums; np.searchsorted(side=left) = least index with a[k] >= v on a sorted array; ravel/reshape are mutually inverse row-major bijections"],
+        "explanation": "get_source_area in rank form: with ord the descending-g order, out.flat[ord[r]] = sum of f over the r cells ranked above (exclusive cumulative sum), cumulated array = f in that order, result has g's shape, integer-typed g does not truncate; base functions equal their formulas; extract_percentile_contour: descending cumulative sums times cell area are searched for p*total with side=left (fewest cells), area = (k+1)*cell area, level = smallest selected value, 2-D/3-D fields and 1-D/2-D/3-D coordinates, level slicing. Set-form consequences (ties, monotonicity, invariance) are lemmas of the rank form (adjacent instances discharged; the general transitive statements are exercised by the brute-force bounded oracle).",
+        "level_text": "Rank/prefix-sum form proved on the real code under the argsort/cumsum/searchsorted contracts.",
+        "level_note": "library contracts of argsort/cumsum/searchsorted/ravel trusted (conformance via the bounded brute-force oracle).",
+    },
+})
+
 for _p in PROPERTIES.values():
     _p.setdefault("technique", TECH)
     _p.setdefault("bounded", True)
